@@ -132,6 +132,12 @@ def quarantine (s : Slots) : Slots :=
   | some k => { s with compromised := some k, key := none }
   | none => s
 
+/-- with several issuers: the compromised key is quarantined wherever it is stored (after the
+`fix:` commit; it used to be quarantined only under the revoked certificate's issuer, so
+another issuer's bundle holding the same reused key was adopted as the "replacement") -/
+def quarantineAll (k : KeyId) (l : List Slots) : List Slots :=
+  l.map (fun s => if s.key = some k then { s with compromised := some k, key := none } else s)
+
 /-- `forceRenew` for a certificate revoked for key compromise: quarantine, then obtain -/
 def replaceCompromised (e : Env) (s : Slots) : Slots := obtain e (quarantine s)
 
